@@ -47,7 +47,8 @@ pub trait MapValidVec<T: IsNone>: Vec1View<T> {
                     .chain(std::iter::repeat_n(value, n_abs))
                     .to_trust(len),
             ),
-            _ => Box::new(std::iter::repeat_n(T::zero(), len).to_trust(len)),
+            // a null differs from itself by a null, not by zero
+            _ => Box::new(self.titer().map(|v| v.clone() - v)),
         }
     }
 
@@ -99,7 +100,14 @@ pub trait MapValidVec<T: IsNone>: Vec1View<T> {
                     .chain(std::iter::repeat_n(f64::NAN, n_abs))
                     .to_trust(len),
             ),
-            _ => Box::new(std::iter::repeat_n(0., len).to_trust(len)),
+            // same rule as for any other lag: null for a null element or a zero base
+            _ => Box::new(self.titer().map(|v| {
+                if v.not_none() && (v.cast() != 0.) {
+                    0.
+                } else {
+                    f64::NAN
+                }
+            })),
         }
     }
 
